@@ -540,6 +540,8 @@ def evaluate_case(case, lv=None):
     d = diff_clause(cfg, property_view(lobs), property_view(robs))
     if d:
       hits.append(('C15/%s/%s' % (d[0], sh), '%s: %s (crash point %d of schedule %s)' % (sh, d[1], c, ''.join(sched)), c))
+    elif cfg[0] == 'nsga2' and lobs[4][3:] != robs[4][3:]:
+      hits.append(('C15/nsga2-elites/NSGA2', 'NSGA2: the elites (proposal ids %s) are %s after recovery (crash point %d of schedule %s)' % (lobs[4][3:], robs[4][3:], c, ''.join(sched)), c))
     elif det and lcont != rcont:
       hits.append(('C15/continuation/%s' % sh, '%s continues with %s after recovery, the uninterrupted run with %s (crash point %d)' % (sh, rcont, lcont, c), c))
   live = res['live']
